@@ -138,6 +138,10 @@ func Corpus() []*Original {
 	send := &transaction.SendData{Coin: 0, To: kb.Addr, Value: worlds.BipI(1)}
 	long := []byte("a payload of sixty bytes forces the long string header: 0xb8")
 	add("send-rich", &worlds.Tx{Type: transaction.TypeSend, Data: send, GasCoin: 1234, GasPrice: 250, Payload: long, Service: []byte("svc"), Signer: kc}, 1<<40)
+	// payloads at the boundary between the short and the long string header (55 / 56 bytes)
+	p56 := []byte("fifty-six bytes of payload: the first long-form length.!")
+	add("send-payload55", &worlds.Tx{Type: transaction.TypeSend, Data: send, GasPrice: 1, Payload: p56[:55], Signer: ka}, 7)
+	add("send-payload56", &worlds.Tx{Type: transaction.TypeSend, Data: send, GasPrice: 1, Payload: p56, Service: p56[:55], Signer: kb}, 7)
 	ms := types.Address(sha256Addr("c23-multisig"))
 	add("send-multisig", &worlds.Tx{Type: transaction.TypeSend, Data: send, Multisig: &ms, Signers: []*worlds.Key{ka, kb}, Payload: []byte("m")}, 3)
 	out = append(out,
